@@ -1,23 +1,23 @@
 SPECIFICATION Spec
 CONSTANTS
   Conns = {1, 2}
-  Limits = {0, 1, 2}
+  Limits = {1}
   TPS = 16
   Min = 2
   UMin = 8
   Interval = 4
-  Deltas = {1, 2, 4, 16}
-  MaxChanges = 2
+  Deltas = {1, 4}
+  MaxChanges = 0
   MaxCancels = 1
   SkipCancelled = TRUE
-  FastPath = FALSE
+  FastPath = TRUE
   Timely = TRUE
-  StaleFullBucket = FALSE
+  StaleFullBucket = TRUE
   StaleRateOnChange = FALSE
   Fifo = TRUE
   StallBound = 8
   BypassBound = 1
-  Slack = 0
+  Slack = 2
 VIEW View
 INVARIANT TypeOK
 INVARIANT BucketCapped
